@@ -1,4 +1,4 @@
 SPECIFICATION TraceSpec
 CONSTANT Mod = 0
-INVARIANTS StateConforms RetConforms OutConforms
+INVARIANTS StateConforms RetConforms OutConforms SnmpConforms
 CHECK_DEADLOCK FALSE
